@@ -14,6 +14,8 @@ import SwV.Spec.C01
 import SwV.Spec.C38
 import SwV.Lemmas.C01
 import SwV.Props.C01
+import SwV.Lemmas.C38
+import SwV.Lemmas.C38b
 import SwV.Gen.C38
 
 namespace SwV.Props.C38
@@ -123,5 +125,109 @@ theorem bridge_step_functions :
     SwV.Gen.C01.src_doWriteRequest = "673b0ac565c7bfce" ∧ SwV.Gen.C01.src_doDeleteRequest = "bb4f3b7b20271c7d" ∧
     SwV.Gen.C01.src_readNeedle = "f3764387cee126f8" ∧ SwV.Gen.C01.src_isFileUnchanged = "9b0c84174250e52d" := by
   decide
+
+/-! ## the per-key decomposition of the run-time search is sound (was: trusted base)
+
+The driver does not search one linearization of a whole recorded history; for every file id `k` it runs
+`linearize modelStep strict (Vol.init _) (subHistory calls k)` and accepts when each answers `found`.
+The section proves that this accept condition yields a linearization of the WHOLE history:
+
+  * `frame_and_locality_spec` / `frame_and_locality_model` — a step on id `a` leaves the view of every other id
+    unchanged and its own output/new view depend on the old view of `a` only (C01 specification `sstep`, and the
+    C01 model `step` the driver runs, for states whose index offsets point into the log);
+  * `ops_on_different_ids_commute` — hence two operations on different ids commute;
+  * `search_accept_is_linearization` — an accepting search returns an explicit linearization of its input;
+  * `linearizable_of_per_key` — the composition (per-key orders are merged by invocation stamp of their heads).
+
+Hypotheses = what the driver checks on every history (`bad-stamps`, `global-toggle-in-history`) plus distinct line
+numbers, which hold by construction (`line := n`). -/
+
+open SwV.Lemmas.C38
+
+/-- FRAME lemma for the C01 specification -/
+theorem frame_and_locality_spec : Local sstep sview (fun _ => True) := local_sstep
+
+/-- FRAME lemma for the C01 model's step function with token outputs (the oracle of the search) -/
+theorem frame_and_locality_model : Local modelStep mview minv := local_modelStep
+
+/-- operations on different file ids commute in the C01 specification: same outputs in either order and the same
+    resulting entry for every id (and the same flags) -/
+theorem ops_on_different_ids_commute (s : KV) (o1 o2 : Op) (h1 : keyed o1 = true) (h2 : keyed o2 = true)
+    (hne : opId o1 ≠ opId o2) :
+    (sstep s o1).2 = (sstep (sstep s o2).1 o1).2 ∧ (sstep (sstep s o1).1 o2).2 = (sstep s o2).2 ∧
+    ∀ k, sview (sstep (sstep s o1).1 o2).1 k = sview (sstep (sstep s o2).1 o1).1 k :=
+  commute_of_local local_sstep s trivial o1 o2 h1 h2 hne
+
+example : keyed (.write 1 7 { data := "61" }) = true ∧ keyed (.delete 2 0) = true ∧
+    opId (.write 1 7 { data := "61" }) ≠ opId (.delete 2 0) := by decide
+
+/-- the same for the model (observed through the per-id view) -/
+theorem model_ops_on_different_ids_commute (st : Vol) (hI : minv st) (o1 o2 : Op) (h1 : keyed o1 = true)
+    (h2 : keyed o2 = true) (hne : opId o1 ≠ opId o2) :
+    (modelStep st o1).2 = (modelStep (modelStep st o2).1 o1).2 ∧
+    (modelStep (modelStep st o1).1 o2).2 = (modelStep st o2).2 ∧
+    ∀ k, mview (modelStep (modelStep st o1).1 o2).1 k = mview (modelStep (modelStep st o2).1 o1).1 k :=
+  commute_of_local local_modelStep st hI o1 o2 h1 h2 hne
+
+example : minv (Vol.init (0, 0)) := minv_init _
+
+/-- an accepting search run IS a linearization: a permutation of the calls in which whoever comes first was
+    invoked before the later one returned, and in which the oracle reproduces every recorded output -/
+theorem search_accept_is_linearization {σ : Type} (stepf : σ → Op → σ × List String) (okf : Rcd → List String → Bool)
+    (st0 : σ) (calls : List Rcd) (fuel : Nat) (hd : DistinctLines calls)
+    (h : linearize stepf okf st0 calls fuel = .found) : ∃ order, IsLin stepf okf st0 calls order :=
+  linearize_sound stepf okf st0 calls fuel hd h
+
+/-- COMPOSITION (locality of linearizability): if the search accepts the sub-history of every file id, the whole
+    history has a linearization — for every okf (strict, or strict-or-wildcard). -/
+theorem linearizable_of_per_key (okf : Rcd → List String → Bool) (ttl : Nat × Nat) (calls : List Rcd) (fuel : Nat)
+    (hstamps : ∀ c ∈ calls, c.inv < c.ret) (hkeyed : ∀ c ∈ calls, keyed c.op = true) (hlines : DistinctLines calls)
+    (hacc : ∀ k ∈ keysOf calls, linearize modelStep okf (Vol.init ttl) (subHistory calls k) fuel = .found) :
+    ∃ order, IsLin modelStep okf (Vol.init ttl) calls order := by
+  apply compose local_modelStep okf (Vol.init ttl) (minv_init ttl) calls hstamps hkeyed
+  intro k
+  by_cases hk : k ∈ keysOf calls
+  · exact linearize_sound _ _ _ _ fuel (distinct_filter calls _ hlines) (hacc k hk)
+  · rw [subHistory_nil_of_not_mem calls k hk]
+    exact ⟨[], isLin_nil _ _ _⟩
+
+/-- conversely a linearization of the whole history restricts to one of every sub-history, so a sub-history
+    WITHOUT linearization (`history/not-linearizable` for one key) refutes linearizability of the whole -/
+theorem per_key_of_linearizable (okf : Rcd → List String → Bool) (ttl : Nat × Nat) (calls order : List Rcd)
+    (hkeyed : ∀ c ∈ calls, keyed c.op = true) (h : IsLin modelStep okf (Vol.init ttl) calls order) (k : Nat) :
+    IsLin modelStep okf (Vol.init ttl) (subHistory calls k) (subHistory order k) :=
+  project local_modelStep okf (Vol.init ttl) (minv_init ttl) calls order hkeyed h k
+
+/-- what the linearization says, unfolded: real-time order is respected -/
+theorem linearization_respects_real_time {σ : Type} {stepf : σ → Op → σ × List String} {okf : Rcd → List String → Bool}
+    {st0 : σ} {calls order : List Rcd} (h : IsLin stepf okf st0 calls order) :
+    order.Pairwise (fun c d => ¬ d.ret < c.inv) := by
+  have := h.rt
+  unfold RealTimeOk at this
+  exact List.Pairwise.imp (fun hcd => by omega) this
+
+def hw : Rcd := ⟨1, 1, 6, .write 1 7 { data := "61" }, ["ok", "0"], 1⟩
+def hr : Rcd := ⟨2, 2, 5, .read 1 7, (modelStep (modelStep (Vol.init (0, 0)) hw.op).1 (.read 1 7)).2, 2⟩
+def hd2 : Rcd := ⟨3, 3, 4, .delete 2 0, ["ok", "0"], 3⟩
+
+/-- the hypotheses are satisfiable and the search accepts: two overlapping calls on id 1, one on id 2 -/
+example : (∀ c ∈ [hw, hr, hd2], c.inv < c.ret) ∧ (∀ c ∈ [hw, hr, hd2], keyed c.op = true) ∧ DistinctLines [hw, hr, hd2] ∧
+    keysOf [hw, hr, hd2] = [1, 2] := by
+  refine ⟨by decide, by decide, by unfold DistinctLines; decide, by decide⟩
+/-- … and on that history the search accepts every sub-history (the accept condition of `linearizable_of_per_key`) -/
+example : ∀ k ∈ keysOf [hw, hr, hd2], linearize modelStep strict (Vol.init (0, 0)) (subHistory [hw, hr, hd2] k) 10 = .found := by
+  have hk : keysOf [hw, hr, hd2] = [1, 2] := by decide
+  rw [hk]
+  intro k hkm
+  simp only [List.mem_cons, List.not_mem_nil, or_false] at hkm
+  rcases hkm with rfl | rfl
+  · have : subHistory [hw, hr, hd2] 1 = [hw, hr] := by rfl
+    rw [this]
+    simp [linearize, search, search.tryAll, minimal, hw, hr, strict, modelStep]
+    rw [if_pos (by decide)]
+  · have : subHistory [hw, hr, hd2] 2 = [hd2] := by rfl
+    rw [this]
+    simp [linearize, search, search.tryAll, minimal, hd2, strict, modelStep]
+    rw [if_pos (by decide)]
 
 end SwV.Props.C38
